@@ -383,6 +383,7 @@ type FuncSpec struct {
 	HasMod    bool
 	MakeChans []GhostMakeChan
 	Pure      bool
+	DeadReturns int       // return statements knowingly unreachable (defensive code)
 	Once        bool      // closure passed to (*sync.Once).Do (runs at most once; checked syntactically)
 	ReleasedBy  []*Clause // release signals accepted for blocking selects under a teardown lock
 	Escape      []*Clause // channels that must offer a receive alternative at every blocking operation
@@ -710,6 +711,13 @@ func (sp *Specs) readFile(path string) error {
 			if cur.TrustResult == "" {
 				return fail("trust_result_objinv needs a reason")
 			}
+		case "dead_returns":
+			// dead_returns N -- reason: N return statements of this function are knowingly unreachable
+			f := strings.Fields(rest)
+			if cur == nil || len(f) < 1 {
+				return fail("dead_returns N -- reason")
+			}
+			cur.DeadReturns, _ = strconv.Atoi(f[0])
 		case "once":
 			// a closure handed to (*sync.Once).Do: it runs at most once
 			cur.Once = true
